@@ -231,12 +231,18 @@ func (dw *DiskWriter) HandleChange(kind ChangeKind, p string, fi os.FileInfo, er
 		}
 	}
 
-	dw.modeMu.Lock()
-	err = rewriteMetadata(newPath, statCopy)
-	dw.modeMu.Unlock()
-	if err != nil {
-		return errors.Wrapf(err, "error setting metadata for %s", newPath)
+	if fi.Mode()&os.ModeSymlink != 0 || statCopy.Linkname == "" {
+		dw.modeMu.Lock()
+		err = rewriteMetadata(newPath, statCopy)
+		dw.modeMu.Unlock()
+		if err != nil {
+			return errors.Wrapf(err, "error setting metadata for %s", newPath)
+		}
 	}
+	// A hard link is only another name: the inode has the metadata it got
+	// through its first name. Applying the link's stat to it would change an
+	// entry that was not announced as changed (and is not reported), including
+	// whatever other names that inode has inside or outside of dest.
 
 	if rename {
 		if oldFi.IsDir() != fi.IsDir() {
